@@ -165,4 +165,24 @@ theorem run_congr (order : List KeyExpr) (view : P → Option (RrelObj T)) (pars
       simp only [run, hs, List.cons.injEq]
       exact ⟨List.map_congr_left (fun r _ => h r), run_congr order view parse rest d d' h⟩
 
+variable {O : Type}
+
+/-- closed form of one pass (`resolveRef` mirrors the statements of the code) -/
+theorem resolveRef_eq (order : List KeyExpr) (view : P → Option (RrelObj T)) (d : Dict P T) (env : Env O)
+    (ask : Call P T → Answer O) (r : Ref T) :
+    resolveRef order view d env ask r =
+      ([callOf order view d r],
+        match ask (callOf order view d r) with
+        | .found o => .bound o
+        | .postponed => .delayed
+        | .nothing =>
+          match env.builtin? r.name with
+          | some b => .bound b
+          | none => .unknown) := by
+  simp only [resolveRef]
+  cases ask (callOf order view d r) with
+  | found o => rfl
+  | postponed => rfl
+  | nothing => cases env.builtin? r.name <;> rfl
+
 end Select
